@@ -20,9 +20,14 @@ pub struct Case {
 
 /// Generate an abstract document and one lexical rendering of it.
 pub fn make_case(src: &mut Src, knobs: &Knobs, fragment: bool, latin1: bool, prolog: bool) -> Result<Case, String> {
+    make_case_opts(src, knobs, fragment, latin1, prolog, false)
+}
+
+pub fn make_case_opts(src: &mut Src, knobs: &Knobs, fragment: bool, latin1: bool, prolog: bool, wide_prefixes: bool) -> Result<Case, String> {
     let mut o = TreeOpts::xml(knobs.max_nodes.max(3));
     o.xml_ids = true;
     o.odd_uris = true;
+    o.wide_prefixes = wide_prefixes;
     if latin1 {
         o.alpha = Alpha::Latin1;
         o.attr_alpha = Alpha::Latin1;
